@@ -61,6 +61,9 @@ def resource_site(data):
     return "?"
 
 
+DBG_EVERY = 4
+
+
 def classify(rc, to, out, outdir, data=b""):
     """Returns None if the run satisfies the property, else (class, site, summary)."""
     if to:
@@ -77,6 +80,15 @@ def classify(rc, to, out, outdir, data=b""):
         return ("asan:" + kind, top_frame(out), out[out.find("ERROR: AddressSanitizer"):][:600])
     if "hard rss limit exhausted" in out or "hard RSS limit" in out:
         return ("asan:out-of-memory", resource_site(data), out[-400:])
+    if "In function:" in out and "/debug/" in out:
+        # libstdc++ debug mode (sbeppc-dbg): invalidated / singular iterator, iterators of different containers, ...
+        em = re.search(r"\nError: (.+?)[.\n]", out)
+        # innermost frame of sbeppc in the backtrace the debug mode prints, else the library function it names
+        fr = re.search(r"sbepp::sbeppc::([\w:~]+)\(", out[out.find("Backtrace:"):]) if "Backtrace:" in out else None
+        fn = fr.group(1) if fr else "?"
+        k = out.find("\nError: ")
+        return ("glibcxx-debug:" + norm(em.group(1) if em else "?")[:60].replace(" ", "_"), fn,
+                (out[k:k + 500] if k >= 0 else out[out.find("In function:"):][:500]))
     mm = re.search(r"terminate called after throwing an instance of '([^']+)'(?:\s+what\(\):\s*(.*))?", out)
     if mm:
         return ("abort:" + mm.group(1), norm((mm.group(2) or "").strip())[:60].replace(" ", "_"), mm.group(0)[:300])
@@ -337,6 +349,9 @@ def main():
             mx, desc = M.mutate_xml(x, rng)
             jobs.append(("mut%d:%s" % (i, n), mx, desc))
 
+        dbg_exe = build.sbeppc("dbg")
+        dbg_runs = []
+
         def run_one(job, idx):
             name, data, desc = job
             jd = os.path.join(work, "j%d" % (idx % 64), str(idx))
@@ -374,6 +389,18 @@ def main():
                 rc, o, _, to = C.run([exe, "--output-dir", od, xp], timeout=TIMEOUT * 3, env=env, cwd=cwd)
                 out = o.decode(errors="replace")
                 v = classify(rc, to, out, od, alltext)
+            if v is None and idx % DBG_EVERY == 1:
+                # every DBG_EVERY-th input once more through the libstdc++ debug-mode build (safe iterators): library-level
+                # undefined behaviour that ASan/UBSan cannot see; same oracle
+                od2 = os.path.join(jd, "out-dbg")
+                os.makedirs(od2)
+                rc2, o2, _, to2 = C.run([dbg_exe, "--output-dir", od2, xp], timeout=TIMEOUT * 3, env={}, cwd=cwd)
+                if not to2:
+                    v2 = classify(rc2, to2, o2.decode(errors="replace"), od2, alltext)
+                    if v2 and (v2[0].startswith("glibcxx-debug") or v2[0].startswith("signal") or v2[0].startswith("abort") or v2[0] == "assert"):
+                        v = (v2[0], v2[1], "[sbeppc-dbg] " + v2[2])
+                        out = o2.decode(errors="replace")
+                dbg_runs.append(1)
             for fp in extra:
                 try:
                     os.remove(fp)
@@ -389,6 +416,7 @@ def main():
             return job, rc, v, first, out
 
         results = C.pmap(lambda t: run_one(t[1], t[0]), list(enumerate(jobs)))
+        rep.count("debug_mode_runs", len(dbg_runs))
         outcomes = {}
         for (name, data, desc), rc, v, first, out in results:
             rep.evaluation()
